@@ -289,6 +289,10 @@ F5_SCRIPTS = {
     "flash-pattern-folded-from-named-list-then-mutated": "from Reduino.Actuators import Led\nled = Led(9)\nxs = [1, 0, 1]\nled.flash_pattern(xs, 10)\nxs.append(0)\nxs.append(1)\nmon.write('done')\n",
     "parameter-shadows-global-constant": "label = 'hello'\ndef width(label):\n    return len(label)\nw = width('hi')\nmon.write(w)\n",
     "derived-in-main-loop": "x = 1\nwhile True:\n    y = x + 1\n    mon.write(y)\n    x = x + 2\n    sleep(1)\n",
+    "restore-to-entry-constant-then-change-later-in-pass": "v = 1\nwhile True:\n    v = 1\n    sleep(v)\n    mon.write(v)\n    v = 7\n    mon.write(v)\n",
+    "restore-constant-after-taken-branch": "v = 2\nc = 1\nif c > 0:\n    v = 9\nmon.write(v)\nv = 2\nmon.write(v)\n",
+    "restore-constant-between-def-and-call": "lim = 3\ndef cap(x):\n    if x > lim:\n        return lim\n    return x\nlim = 8\nmon.write(cap(6))\nlim = 3\nmon.write(cap(6))\n",
+    "reset-counter-inside-for": "t = 0\nfor i in range(3):\n    t = 0\n    t = t + i\n    mon.write(t)\nt = 0\nmon.write(t)\n",
 }
 
 
@@ -310,6 +314,89 @@ def f5_obligations(out):
                     "replay_confirmed": status == "sat"})
 
 
+# F6: device arguments that name a variable changed in a nested body are run-time values (executed next to the real host class), and
+#     F7: a constant expression that folds to a falsy value (0, 0.0, 250 - 250, False) is still an argument, not an omitted one
+F6_SCRIPTS = {
+    "motor-speed-accumulated-in-for": "m = DCMotor(5, 6, 9)\nspeed = 0.25\nfor i in range(2):\n    speed = speed + 0.25\nm.set_speed(speed)\nmon.write('a')\n",
+    "motor-speed-changed-in-main-loop": "m = DCMotor(5, 6, 9)\nb = 0.125\nwhile True:\n    b += 0.125\n    m.set_speed(b)\n    mon.write('p')\n    sleep(5)\n",
+    "motor-backward-after-branch": "m = DCMotor(5, 6, 9)\nv = 0.5\nc = 1\nif c > 0:\n    v = 0.75\nm.backward(v)\nmon.write('a')\n",
+    "servo-angle-changed-in-while": "s = Servo(9)\nangle = 10\nk = 0\nwhile k < 3:\n    angle = angle + 20\n    k = k + 1\ns.write(angle)\nmon.write('a')\n",
+    "led-brightness-changed-in-for": "led = Led(9)\nlevel = 10\nfor i in range(3):\n    level = level + 40\nled.set_brightness(level)\nmon.write('a')\n",
+    "motor-ramp-target-changed-in-for": "m = DCMotor(5, 6, 9)\nt = 0.25\nfor i in range(2):\n    t = t + 0.25\nm.ramp(t, 40, 4)\nmon.write('a')\n",
+}
+
+
+def f6_obligations(out):
+    from progs import devdiff
+    res = devdiff.run({k: devdiff.IMPORTS + v for k, v in F6_SCRIPTS.items()})
+    for r in res:
+        v = r["verdict"]
+        ok = v in ("same", "rejected", "python-undefined")
+        out.append({"name": f"C03/F6/{r['name']}", "status": "discharged" if ok else ("unknown" if v.startswith("harness") else "sat"), "backend": "bounded-differential", "bounded": True,
+                    "where": f"script '{r['name']}': a device argument naming a variable that was changed in a nested body has the variable's run-time value (pin/delay trace = the host class's) [{v}]",
+                    "time": 0.3, "replay": {"script": r.get("script"), "first_difference": r.get("first_difference"), "detail": r.get("detail")}, "replay_confirmed": not ok and not v.startswith("harness")})
+
+
+# the host Buzzer does not sleep, so its scripts are judged against the values Python computes (stated here) instead of the host trace
+F6_BUZZER = {
+    "buzzer-frequency-changed-in-branch": ("bz = Buzzer(8)\nf = 440\nc = 1\nif c > 0:\n    f = 880\nbz.play_tone(f, 20)\nmon.write('a')\n", ["T:8:880", "D:20"], ["T:8:440"]),
+    "buzzer-duration-changed-in-loop": ("bz = Buzzer(8)\nd = 10\nwhile True:\n    d = d + 10\n    bz.play_tone(440, d)\n    mon.write('p')\n    sleep(5)\n", ["D:20", "D:5", "D:30", "D:5"], ["D:10"]),
+    "buzzer-frequency-accumulated-in-for": ("bz = Buzzer(8)\nf = 100\nfor i in range(3):\n    f = f + 100\nbz.play_tone(f)\nmon.write('a')\n", ["T:8:400"], ["T:8:100"]),
+}
+
+
+def f6_buzzer_obligations(out):
+    from progs import devdiff
+    from progs.diff import transpile
+    from fwsim.run import run_sketch
+    for name, (body, want, never) in F6_BUZZER.items():
+        src = devdiff.IMPORTS + body
+        cpp, err = transpile(src)
+        prob = None
+        if cpp is not None:
+            r = run_sketch(cpp, passes=2)
+            if not r.get("compiled"):
+                prob = "does not compile: " + r.get("errors", "")[-200:]
+            else:
+                ev = [e for e in r["events"] if e[:2] in ("T:", "D:")]
+                k = 0
+                for e in ev:
+                    if k < len(want) and e == want[k]:
+                        k += 1
+                if k < len(want):
+                    prob = f"expected the events {want} in this order, firmware produced {ev[:10]}"
+                elif any(e in never for e in ev):
+                    prob = f"firmware produced {[e for e in ev if e in never]} (the variable's initial value)"
+        out.append({"name": f"C03/F6/{name}", "status": "discharged" if not prob else "sat", "backend": "enum+fwsim", "bounded": True,
+                    "where": f"script '{name}': a buzzer argument naming a variable that was changed in a nested body has the variable's run-time value", "time": 0.3,
+                    "replay": {"script": src, "problem": prob}, "replay_confirmed": bool(prob)})
+
+
+def f7_obligations(P, out):
+    import multiprocessing as mp
+    import re as _re
+    import contracts.c08 as c8
+    del c8.LITVAR_JOBS[:]
+    c8.spacing_and_literal_obligations(P)
+    jobs = []
+    for name, a, b in c8.LITVAR_JOBS:
+        if not name.endswith("/zero"):
+            continue
+        for tag, lit in (("zero-difference", "250 - 250"), ("float-zero", "0.0"), ("product-with-zero", "0 * 7")):
+            a2 = _re.sub(r"=0\)\n$", f"={lit})\n", a)
+            b2 = b.replace("zzv = 0\n", f"zzv = {lit}\n")
+            if a2 != a:
+                jobs.append((f"{name[:-5]}/{tag}", a2, b2))
+    del c8.LITVAR_JOBS[:]
+    t0 = time.time()
+    with mp.Pool(16) as pool:
+        res = pool.map(c8._litvar_one, jobs, chunksize=1)
+    bad = [(n, v, d, a) for n, v, d, a, b in res if v not in ("same", "rejected")]
+    out.append({"name": "C03/F7/constant-folding-to-a-falsy-value-is-still-an-argument", "status": "discharged" if not bad else "sat", "backend": "enum+fwsim", "bounded": True,
+                "where": f"{len(jobs)} (device method, numeric parameter, constant expression folding to zero) cases: the firmware trace equals that of the same value in a variable",
+                "time": round(time.time() - t0, 2), "replay": {"failing": [{"case": n, "verdict": v, "detail": d, "script": a[-160:]} for n, v, d, a in bad[:4]]}, "replay_confirmed": bool(bad)})
+
+
 def extra_obligations(mods, tier, seed):
     from contracts.c08 import real
     P, E = real("Reduino.transpile.parser"), real("Reduino.transpile.emitter")
@@ -320,6 +407,9 @@ def extra_obligations(mods, tier, seed):
     f2_behaviour(P, out)
     f4_obligations(P, E, out)
     f5_obligations(out)
+    f6_obligations(out)
+    f6_buzzer_obligations(out)
+    f7_obligations(P, out)
     return out
 
 
